@@ -27,6 +27,8 @@ pub enum Flag {
 pub enum Simple {
     Type(String),
     Universal,
+    /// `|name`, `|*` (no namespace: matches no element of an HTML document) and `*|name`, `*|*` (any namespace)
+    Ns { any: bool, name: Option<String> },
     Id(String),
     Class(String),
     AttrExists(String),
@@ -95,6 +97,7 @@ impl Simple {
         match self {
             Simple::Type(n) => css_ident(n),
             Simple::Universal => "*".into(),
+            Simple::Ns { any, name } => format!("{}|{}", if *any { "*" } else { "" }, name.as_ref().map_or("*".to_string(), |n| css_ident(n))),
             Simple::Id(i) => format!("#{}", css_ident(i)),
             Simple::Class(c) => format!(".{}", css_ident(c)),
             Simple::AttrExists(n) => format!("[{}]", css_ident(n)),
@@ -128,12 +131,12 @@ impl Compound {
         // a type / universal selector must come first
         let mut s = String::new();
         for x in &self.0 {
-            if matches!(x, Simple::Type(_) | Simple::Universal) {
+            if matches!(x, Simple::Type(_) | Simple::Universal | Simple::Ns { .. }) {
                 s.push_str(&x.css());
             }
         }
         for x in &self.0 {
-            if !matches!(x, Simple::Type(_) | Simple::Universal) {
+            if !matches!(x, Simple::Type(_) | Simple::Universal | Simple::Ns { .. }) {
                 s.push_str(&x.css());
             }
         }
@@ -193,7 +196,14 @@ pub const HTML_CI_ATTRS: &[&str] = &[
 pub fn gen_simple(rng: &mut Rng, depth: usize, allow_type: bool) -> Simple {
     match rng.below(if depth < 2 { 16 } else { 13 }) {
         0 | 1 if allow_type => Simple::Type((*rng.pick(SEL_TYPES)).to_string()),
-        2 if allow_type => Simple::Universal,
+        2 if allow_type => {
+            // (not inside :not(): there `|name` is two components for lol-html, which meets the flattened-negation finding)
+            if depth == 0 && rng.chance(1, 5) {
+                Simple::Ns { any: rng.bool(), name: if rng.bool() { Some((*rng.pick(SEL_TYPES)).to_string()) } else { None } }
+            } else {
+                Simple::Universal
+            }
+        }
         3 => Simple::Id((*rng.pick(SEL_IDS)).to_string()),
         4 | 5 => Simple::Class((*rng.pick(SEL_IDS)).to_string()),
         6 => Simple::AttrExists((*rng.pick(SEL_ATTRS)).to_string()),
@@ -241,7 +251,7 @@ pub fn gen_compound(rng: &mut Rng, depth: usize) -> Compound {
     let mut has_type = false;
     for _ in 0..n {
         let s = gen_simple(rng, depth, !has_type);
-        if matches!(s, Simple::Type(_) | Simple::Universal) {
+        if matches!(s, Simple::Type(_) | Simple::Universal | Simple::Ns { .. }) {
             has_type = true;
         }
         v.push(s);
@@ -329,6 +339,9 @@ fn simple_matches(t: &Tree, idx: usize, s: &Simple, flat: bool, enc: &'static en
     match s {
         Simple::Type(name) => n.name_lower == encv(&name.to_ascii_lowercase()),
         Simple::Universal => true,
+        Simple::Ns { any: false, .. } => false,
+        Simple::Ns { any: true, name: None } => true,
+        Simple::Ns { any: true, name: Some(name) } => n.name_lower == encv(&name.to_ascii_lowercase()),
         Simple::Id(id) => attr_value(n, "id").map_or(false, |v| v == encv(id).as_slice()),
         Simple::Class(c) => attr_value(n, "class").map_or(false, |v| {
             let c = encv(c);
